@@ -118,6 +118,50 @@ theorem c02_sack_direct_bytes_opts {s : SackSt} {t : Nat} {p : Sent}
       .accept t s.cfg.target true p.time :=
   sack_direct_complete_opts hl htg o1 o2 o3 o4 h1 h2 h3 hff hfr b1 b2 b3 b4 b5 hfl b6 b7 b8 hsize hlk
 
+/-- TCP SYN, direct forms, bytes: SYN-ACK / RST / RST-ACK whose TCP header carries ANY option bytes the
+    decoder accepts (data offset 5..15: MSS, SACK-permitted, timestamps, window scale, padding — what
+    real stacks put on a SYN-ACK), inside an IP header with any accepted options -/
+theorem c02_tcp_direct_bytes_allopts {s : TcpSt} {last : Sent}
+    {oihl otos oid ff ottl ock doff seq ack fl win ck urg : Nat} {oopts topts pl : Bytes} {parsed : List (Nat × Bytes)}
+    (hl : s.cfg.localA.length = 4) (htg : s.cfg.target.length = 4)
+    (o1 : 5 ≤ oihl) (o2 : oihl ≤ 15) (o3 : oopts.length = oihl * 4 - 20) (o4 : ip4OptsOK (oihl * 4 - 20) oopts = true)
+    (d5 : 5 ≤ doff) (d15 : doff ≤ 15) (hol : topts.length = doff * 4 - 20) (hok : tcpOpts (doff * 4 - 20) topts = some parsed)
+    (h1 : otos < 256) (h2 : oid < 65536) (h3 : ottl < 256) (hff : ff < 65536) (hfr : ff % 16384 = 0)
+    (b1 : s.cfg.tport < 65536) (b2 : s.cfg.lport < 65536) (b3 : seq < 4294967296) (b4 : ack < 4294967296) (b5 : fl < 256)
+    (hfl : ((fl / 2) % 2 = 1 ∧ (fl / 16) % 2 = 1) ∨ (fl / 4) % 2 = 1)
+    (hlast : s.sent.getLast? = some last)
+    (hack : (fl / 16) % 2 = 1 → last.seq = (ack + 4294967295) % 4294967296)
+    (hsize : oihl * 4 + (doff * 4 + pl.length) ≤ 1024) :
+    tcpRecv s (tcpMsg4oo oihl otos oid ff ottl ock s.cfg.target s.cfg.localA oopts doff s.cfg.tport s.cfg.lport seq ack fl win ck urg topts pl) =
+      .accept last.ttl s.cfg.target true last.time :=
+  tcp_direct_complete_allopts hl htg o1 o2 o3 o4 d5 d15 hol hok h1 h2 h3 hff hfr b1 b2 b3 b4 b5 hfl hlast hack hsize
+
+/-- SACK, direct form, bytes: an ACK whose TCP options — ANY bytes the decoder accepts: several SACK
+    blocks in any order, timestamps, padding — have `t` as their smallest relative left edge
+    (`minSack`, the model of `getMinSack`, for every ISN) is the destination's answer for TTL `t` -/
+theorem c02_sack_direct_bytes_allopts {s : SackSt} {t : Nat} {p : Sent}
+    {oihl otos oid ff ottl ock doff seq ack fl win ck urg : Nat} {oopts topts pl : Bytes} {parsed : List (Nat × Bytes)}
+    (hl : s.cfg.localA.length = 4) (htg : s.cfg.target.length = 4)
+    (o1 : 5 ≤ oihl) (o2 : oihl ≤ 15) (o3 : oopts.length = oihl * 4 - 20) (o4 : ip4OptsOK (oihl * 4 - 20) oopts = true)
+    (d5 : 5 ≤ doff) (d15 : doff ≤ 15) (hol : topts.length = doff * 4 - 20) (hok : tcpOpts (doff * 4 - 20) topts = some parsed)
+    (hms : minSack s.cfg.isn parsed = some t)
+    (h1 : otos < 256) (h2 : oid < 65536) (h3 : ottl < 256) (hff : ff < 65536) (hfr : ff % 16384 = 0)
+    (b1 : s.cfg.tport < 65536) (b2 : s.cfg.lport < 65536) (b3 : seq < 4294967296) (b4 : ack < 4294967296) (b5 : fl < 256)
+    (hfl : fl % 2 = 0 ∧ (fl / 2) % 2 = 0 ∧ (fl / 4) % 2 = 0)
+    (hsize : oihl * 4 + (doff * 4 + pl.length) ≤ 1024) (hlk : sackLookup s t = some p) :
+    sackRecv s (tcpMsg4oo oihl otos oid ff ottl ock s.cfg.target s.cfg.localA oopts doff s.cfg.tport s.cfg.lport seq ack fl win ck urg topts pl) =
+      .accept t s.cfg.target true p.time :=
+  sack_direct_complete_allopts hl htg o1 o2 o3 o4 d5 d15 hol hok hms h1 h2 h3 hff hfr b1 b2 b3 b4 b5 hfl hsize hlk
+
+/-- non-vacuity of the option hypotheses (kernel evaluation): the 20 option bytes Linux puts on a SYN-ACK
+    (MSS 1460, SACK-permitted, timestamps, NOP, window scale 7) are accepted by the TCP option loop, and
+    an ACK carrying NOP NOP timestamps + NOP NOP SACK with two blocks (the second one lower) has the lower
+    block's left edge as its smallest relative edge, across the 2^32 wrap (ISN 0xfffffffe, edges ISN+5, ISN+3) -/
+example :
+    (tcpOpts 20 [2,4,5,0xb4, 4,2, 8,10,0,0,0,1,0,0,0,2, 1, 3,3,7]).isSome = true ∧
+    (tcpOpts 32 [1,1,8,10,0,0,0,9,0,0,0,8, 1,1,5,18, 0,0,0,3, 0,0,0,4, 0,0,0,1, 0,0,0,2]).map (minSack 0xfffffffe) =
+      some (some 3) := by decide +kernel
+
 /-- the option hypothesis holds for NOP padding of every header length … -/
 theorem c02_opts_hyp_nops (ihl : Nat) :
     (List.replicate (ihl * 4 - 20) (byte 1)).length = ihl * 4 - 20 ∧
@@ -159,4 +203,6 @@ example :
 #print axioms c02_sack_direct_bytes_opts
 #print axioms c02_opts_hyp_nops
 #print axioms c02_opts_hyp_eol
+#print axioms c02_tcp_direct_bytes_allopts
+#print axioms c02_sack_direct_bytes_allopts
 end TRV.Props.C02Opts
